@@ -50,7 +50,10 @@ def sent_is_written(ctx: Ctx, chk) -> None:
 def delim1(ctx: Ctx, chk) -> None:
     rule = "DELIM-1"
     chk.rule(rule, "every site that splits a wire line on ';' isolates the payload as everything after the 5th delimiter from the left (split(';', 5) into six slots)")
-    n = codec.check_delim1(ctx, chk, rule, only_funcs={f"{codec.SCHEMA}.to_dict"})
+    _schema, hooks = schema_hooks(ctx)
+    pre = hooks["pre_load"][0] if hooks["pre_load"] else None
+    funcs = {f"{codec.SCHEMA}.to_dict"} | ({pre.fq} | {h.fq for h in codec.decode_helpers(ctx, pre)} if pre is not None else set())
+    n = codec.check_delim1(ctx, chk, rule, only_funcs=funcs)
     chk.floor(rule, "split sites in MessageSchema.to_dict", n, 1)
 
 
@@ -189,15 +192,18 @@ def delim2(ctx: Ctx, chk) -> None:
         chk.instance(rule)
         chk.ok(rule, f"{post.fq}::return", "returns the joined string unmodified", loc, sample=False)
     # pre_load: only rstrip() (no args) on the whole line before the split
-    sites = [s for s in codec.split_sites(I) if s.func is pre]
+    helpers = codec.decode_helpers(ctx, pre)
+    sites = [s for s in codec.split_sites(I) if s.func is pre or s.func in helpers]
     for s in sites:
         chk.instance(rule)
         from ..prov import Canon
 
         recv = s.call.func.value
-        param = pre.positional_params[1]
-        rtxt = Canon(I, pre, "").canon(recv)
-        key = f"{pre.fq}::{rtxt[:60]}::strip"
+        sf = s.func
+        ps_ = [p_ for p_ in sf.positional_params if not (p_ in ("self", "cls") and sf.cls is not None)]
+        param = pre.positional_params[1] if sf is pre else (ps_[0] if ps_ else "?")
+        rtxt = Canon(I, sf, "").canon(recv)
+        key = f"{sf.fq}::{rtxt[:60]}::strip"
         if rtxt == param:
             chk.ok(rule, key, "line split unmodified", ctx.loc(pre, s.call))
         elif rtxt == f"{param}.rstrip()":
@@ -208,9 +214,10 @@ def delim2(ctx: Ctx, chk) -> None:
             chk.refute(rule, key, f"the line is preprocessed by `{norm(recv)}` before the split: anything but rstrip() alters fields the property keeps (leading blanks, inner characters)", ctx.loc(pre, s.call))
     # no per-field stripping of the zipped values
     chk.instance(rule)
-    strips = [n for n in ctx.own_nodes(pre) if isinstance(n, ast.Call) and isinstance(n.func, ast.Attribute) and n.func.attr in ("strip", "lstrip", "lower", "upper", "replace", "title")]
+    strips = [(g_, n) for g_ in [pre] + helpers for n in ctx.own_nodes(g_) if isinstance(n, ast.Call) and isinstance(n.func, ast.Attribute) and n.func.attr in ("strip", "lstrip", "lower", "upper", "replace", "title")]
     if strips:
-        chk.refute(rule, fkey(pre, strips[0]) + "::field-transform", f"pre_load transforms field text with `{norm(strips[0])}`", ctx.loc(pre, strips[0]))
+        g0, s0 = strips[0]
+        chk.refute(rule, fkey(g0, s0) + "::field-transform", f"the decoder transforms field text with `{norm(s0)}` ({g0.qualname}): a payload is no longer the text after the 5th delimiter (leading blanks, case, inner characters are lost)", ctx.loc(g0, s0))
     else:
         chk.ok(rule, f"{pre.fq}::no-field-transform", "no strip/lower/replace on field text", ctx.loc(pre, pre.node))
 
